@@ -281,7 +281,7 @@ func generate(r *hx.Rng) []cs {
 		}
 	}
 	for _, e := range strings.Split(*k1engs, ",") {
-		if e != "" {
+		if e != "" && e != "none" {
 			cases = append(cases, cs{id: next(), kind: "K", f: []string{e, fmt.Sprint(*k1mb), "300"}})
 		}
 	}
